@@ -45,6 +45,19 @@ type PrePass struct {
 // prefixOf: is e derived from the variable `line` by prefix-preserving operations only?
 // Records the cut sets / separators met on the way.
 func prefixOf(info *types.Info, e ast.Expr, line types.Object, pp *PrePass) (bool, string) {
+	return prefixOfD(info, e, line, pp, 0)
+}
+
+// outermostTrim: the constant cut set of e = strings.TrimRight(·, cs), "" otherwise.
+func outermostTrim(info *types.Info, e ast.Expr) string {
+	if c, ok := ast.Unparen(e).(*ast.CallExpr); ok && calleeName(info, c) == "strings.TrimRight" && len(c.Args) == 2 {
+		cs, _ := constString(info, c.Args[1])
+		return cs
+	}
+	return ""
+}
+
+func prefixOfD(info *types.Info, e ast.Expr, line types.Object, pp *PrePass, depth int) (bool, string) {
 	e = ast.Unparen(e)
 	switch x := e.(type) {
 	case *ast.Ident:
@@ -64,10 +77,12 @@ func prefixOf(info *types.Info, e ast.Expr, line types.Object, pp *PrePass) (boo
 			if !ok {
 				return false, "TrimRight with a non-constant cut set"
 			}
-			pp.TrimCutSets = append(pp.TrimCutSets, cs)
-			return prefixOf(info, x.Args[0], line, pp)
+			if depth == 0 {
+				pp.TrimCutSets = append(pp.TrimCutSets, cs)
+			}
+			return prefixOfD(info, x.Args[0], line, pp, depth+1)
 		case "strings.TrimSuffix":
-			return prefixOf(info, x.Args[0], line, pp)
+			return prefixOfD(info, x.Args[0], line, pp, depth+1)
 		}
 		return false, "call of " + name + " is not prefix-preserving (only TrimRight, TrimSuffix, Split(…)[0], x[:i] with i = Index(x, sep) keep cleaned line i a prefix of input line i)"
 	case *ast.IndexExpr:
@@ -81,7 +96,7 @@ func prefixOf(info *types.Info, e ast.Expr, line types.Object, pp *PrePass) (boo
 						return false, "Split with a non-constant separator"
 					}
 					pp.CommentCut = sep
-					return prefixOf(info, call.Args[0], line, pp)
+					return prefixOfD(info, call.Args[0], line, pp, depth+1)
 				}
 			}
 		}
@@ -98,7 +113,7 @@ func prefixOf(info *types.Info, e ast.Expr, line types.Object, pp *PrePass) (boo
 				if sep, ok := constString(info, call.Args[1]); ok {
 					pp.CommentCut = sep
 				}
-				return prefixOf(info, x.X, line, pp)
+				return prefixOfD(info, x.X, line, pp, depth+1)
 			}
 			return false, "the cut position comes from " + name + ", not from the first occurrence (strings.Index) of the comment marker"
 		}
@@ -150,6 +165,7 @@ func PrePassShape(p *load.Prog, r *oblig.Report, rule string) *PrePass {
 	appends := 0
 	okPrefix := true
 	cleaned := map[types.Object]bool{}
+	nonEmpty, untrimmed := 0, ""
 	// first pass: find the append and the variable appended
 	ast.Inspect(loop.Body, func(n ast.Node) bool {
 		as, ok := n.(*ast.AssignStmt)
@@ -182,12 +198,26 @@ func PrePassShape(p *load.Prog, r *oblig.Report, rule string) *PrePass {
 				if obj == nil {
 					obj = info.Uses[lid]
 				}
+				if obj == lineObj {
+					// the line is rewritten before it is cleaned: the rewrite itself must keep prefixes (and columns)
+					if ok, why := prefixOf(info, s.Rhs[i], lineObj, &PrePass{}); !ok {
+						okPrefix = false
+						r.Bad(rule, "prepass:prefix", pos(s), "the input line is rewritten before cleaning and the result is not a prefix of the input line (columns shift): "+why)
+					}
+					continue
+				}
 				if !cleaned[obj] {
 					continue
 				}
 				if ok, why := prefixOf(info, s.Rhs[i], lineObj, pp); !ok {
 					okPrefix = false
 					r.Bad(rule, "prepass:prefix", pos(s), "the cleaned line is not a prefix of the input line: "+why)
+				}
+				if cs, isConst := constString(info, s.Rhs[i]); !(isConst && cs == "") {
+					nonEmpty++
+					if t := outermostTrim(info, s.Rhs[i]); !strings.Contains(t, " ") {
+						untrimmed = pos(s)
+					}
 				}
 			}
 		case *ast.RangeStmt, *ast.ForStmt:
@@ -200,6 +230,15 @@ func PrePassShape(p *load.Prog, r *oblig.Report, rule string) *PrePass {
 	})
 	if okPrefix {
 		r.OK(rule, "prepass:prefix", pos(loop), "prefix-preserving-table", fmt.Sprintf("each cleaned line is \"\" or a prefix of its input line (comment cut at first %q, trailing cut sets %q)", pp.CommentCut, pp.TrimCutSets))
+	}
+	// the last operation on every non-empty cleaned line is the trailing trim
+	switch {
+	case nonEmpty == 0:
+		r.Unknown(rule, "prepass:trim-outermost", pos(loop), "no non-empty assignment to the cleaned line found")
+	case untrimmed != "":
+		r.Bad(rule, "prepass:trim-outermost", untrimmed, "the trailing-blank trim is not the last operation on the cleaned line: after the comment cut the line can end in a blank (or a carriage return), which the grammar does not accept at the end of input and which re-enables the cubic NEWLINE recursion")
+	default:
+		r.OK(rule, "prepass:trim-outermost", pos(loop), "syntax", fmt.Sprintf("every non-empty cleaned line is strings.TrimRight(…, cut set ∋ ' ') as its last operation (cut sets %q)", pp.TrimCutSets))
 	}
 	// exactly one append per iteration: the append is a direct statement of the loop body, not nested in a branch
 	direct := 0
